@@ -93,13 +93,25 @@ func genBridge(t *rapid.T) Round {
 	r.P["pathFirst"] = 0
 	if r.P["variant"] == 0 && rapid.IntRange(0, 6).Draw(t, "pathFirst") == 0 {
 		r.P["pathFirst"] = 1 // the completion path fires alone first and must close the bridge by itself
-		r.Paths = []string{rapid.SampledFrom([]string{"source-eof", "target-eof", "parent-cancel"}).Draw(t, "firstPath")}
+		r.Paths = []string{rapid.SampledFrom([]string{"source-eof", "target-eof"}).Draw(t, "firstPath")}
 	}
 	return r
 }
 
 func runBridge(r Round) *outcome {
 	o := &outcome{}
+	tStart := time.Now()
+	var marks []string
+	mark := func(n string) {
+		if debugTiming {
+			marks = append(marks, fmt.Sprintf("%s=%v", n, time.Since(tStart).Round(10*time.Microsecond)))
+		}
+	}
+	defer func() {
+		if debugTiming && time.Since(tStart) > 20*time.Millisecond {
+			fmt.Printf("SLOW %+v %v overlap=%v\n", r, marks, o.maxInside)
+		}
+	}()
 	base := snapshot(bridgePrefixes)
 	parent, cancel := context.WithCancel(context.Background())
 	defer cancel()
@@ -175,6 +187,10 @@ func runBridge(r Round) *outcome {
 	if r.p("pathFirst") == 1 {
 		// a completion path alone must shut the bridge down (copy finished / context cancelled)
 		firePath(r.Paths[0])()
+		if cc.mode != 0 { // IsClosed shares the lock that cleanup holds while it reports: let the reporters through first
+			pollUntil(3*time.Millisecond, func() bool { return cc.parked.Load() >= 2 })
+			cc.open()
+		}
 		if !pollUntil(3*time.Second, func() bool { return b.IsClosed() && startReturned.Load() }) {
 			o.failf("C16/bridge/completion-path-did-not-close-bridge/"+r.Paths[0],
 				"3s after %s: bridge closed=%v, Start returned=%v (no Close call from outside yet)", r.Paths[0], b.IsClosed(), startReturned.Load())
@@ -195,6 +211,7 @@ func runBridge(r Round) *outcome {
 			rc.spin(kindPath, p, firePath(p))
 		}
 	}
+	mark("setup")
 	rc.release()
 	// let the two reporters meet inside the cloud double, then let them go
 	if cc.mode != 0 {
@@ -205,24 +222,27 @@ func runBridge(r Round) *outcome {
 		cc.open()
 	}
 	// stage 1: everything the bridge started must end because Close closed the bridge's own conns
-	stage1 := rc.wait(3 * time.Second)
+	stage1, stuck := rc.waitBlocked(3*time.Second, 20*time.Second)
 	var leaks1 []string
 	if stage1 {
 		leaks1 = settle(bridgePrefixes, base, 2*time.Second)
 	}
+	mark("stage1")
 	// stage 2: unblock pending I/O from outside
 	srcPeer.Close()
 	tgtPeer.Close()
 	if !stage1 {
 		if rc.wait(10 * time.Second) {
-			o.failf("C16/bridge/close-or-start-returned-only-after-peers-went-away", "Close x%d / Start did not return within 3s after Close; returned once the far ends were closed", r.Closers)
+			o.failf("C16/bridge/close-or-start-returned-only-after-peers-went-away", "Close x%d / Start did not return within 3s after Close; returned once the far ends were closed. Goroutines at 3s:\n%s", r.Closers, stuck)
 		} else {
 			o.failf("C16/bridge/close-or-start-did-not-return", "Close x%d / Start did not return within 13s", r.Closers)
 			return o
 		}
 	}
 	rc.measure(o)
+	mark("wait2")
 	leaks2 := settle(bridgePrefixes, base, 2*time.Second)
+	mark("settle2")
 	if leaks2 != nil {
 		o.failf("C16/bridge/goroutine-leak/"+leakKeyPart(leaks2[0]), "goroutines remain 2s after Close returned and the far ends were closed: %v", leaks2)
 	} else if leaks1 != nil {
